@@ -231,6 +231,30 @@ def run(ctx):
             and st.value.args and is_name(st.value.args[0], idv)]
     ctx.check('R2', 'the context is looked up by the id sent by the client', bool(look), 'RemoteServer.run', 'context-lookup-key', 'the context is not looked up by the client-supplied id', where=loc(f, f.node))
 
+    # ---------------------------------------------------------------- R1 nothing but hashability is required of an id
+    # the ids are the keys of a dict: clients may register 1 and 'gpu' side by side.  An operation that orders the keys (sorted / min / max / .sort())
+    # raises TypeError for such a table - in the accept loop that is not contained and stops the server with every context on it.
+    n_order = 0
+    for fn in RS.methods.values():
+        for c in calls_in(fn.node):
+            arg = None
+            if isinstance(c.func, ast.Name) and c.func.id in ('sorted', 'min', 'max') and c.args:
+                arg = c.args[0]
+            elif last_attr(c) == 'sort' and isinstance(c.func, ast.Attribute):
+                arg = c.func.value
+            if arg is None:
+                continue
+            txt = norm(arg)
+            if isinstance(arg, ast.Name):
+                txt = ' '.join(norm(st.value) for st in walk_local(fn.node) if isinstance(st, ast.Assign) and any(is_name(tg, arg.id) for tg in st.targets)) or txt
+            if 'self.contexts' in txt and '.values()' not in txt:
+                n_order += 1
+                ctx.check('R1', f'{fn.short}: the context ids are not ordered', False, fn.short, f'context-ids-ordered:{norm(c)[:50]}',
+                          f'`{short(c)}` in {fn.short} orders the ids of the registered contexts: ids only have to be hashable, so two contexts registered as 1 and \'gpu\' make it raise '
+                          'TypeError - evaluated in the accept loop (also as the argument of a log call, whatever the log level) it stops the server and every context on it',
+                          where=loc(fn, c))
+    ctx.ob('R1', 'no operation of the server orders the context ids (they need only be hashable)', n_order == 0)
+
     # ---------------------------------------------------------------- R2 the id sentinel
     # None is the protocol's only "no context" value: any other id the user chose (0, '', False, ()) is a context.  Every name that denotes the
     # id - the attribute sent as the first element of a request header, the constructor parameters stored into it, the server's unpacked local -
